@@ -10,19 +10,26 @@ package ratelimiter
 pred policyOK(p *Policy) := p != nil && (p.LimitRefreshPeriod == "" || (durOK(p.LimitRefreshPeriod) && durOf(p.LimitRefreshPeriod) > 0)) && p.LimitForPeriod >= 0
 pred namedBy(spec *Spec, u *URLRule) := u.URLRule.PolicyRef != "" ? u.URLRule.PolicyRef : spec.DefaultPolicyRef
 
+// C13: an accepted spec names only policies it defines: every URL's policyRef - or, when it has none, the
+// defaultPolicyRef - is the name of one of spec.Policies (bindPolicyToURL then finds it; createRateLimiter
+// dereferences the bound policy)
 func (spec Spec) Validate() (err error)
   requires forall k int :: 0 <= k && k < len(spec.Policies) ==> spec.Policies[k] != nil
   requires forall k int :: 0 <= k && k < len(spec.URLs) ==> spec.URLs[k] != nil
   ensures accepted-periods-are-positive: err == nil ==> (forall k int :: 0 <= k && k < len(spec.Policies) ==> !durOK(spec.Policies[k].LimitRefreshPeriod) || durOf(spec.Policies[k].LimitRefreshPeriod) > 0)
+  ensures accepted-specs-name-only-policies-they-define: err == nil ==> (forall j int :: 0 <= j && j < len(spec.URLs) ==> (exists k int :: 0 <= k && k < len(spec.Policies) && spec.Policies[k].Name == (spec.URLs[j].URLRule.PolicyRef != "" ? spec.URLs[j].URLRule.PolicyRef : spec.DefaultPolicyRef)))
   invariant[1] forall k int :: 0 <= k && k < idx$1 ==> !durOK(spec.Policies[k].LimitRefreshPeriod) || durOf(spec.Policies[k].LimitRefreshPeriod) > 0
   invariant[2] forall k int :: 0 <= k && k < len(spec.Policies) ==> !durOK(spec.Policies[k].LimitRefreshPeriod) || durOf(spec.Policies[k].LimitRefreshPeriod) > 0
+  invariant[2] forall j int :: 0 <= j && j < idx$2 ==> (exists k int :: 0 <= k && k < len(spec.Policies) && spec.Policies[k].Name == (spec.URLs[j].URLRule.PolicyRef != "" ? spec.URLs[j].URLRule.PolicyRef : spec.DefaultPolicyRef))
   invariant[3] (forall k int :: 0 <= k && k < len(spec.Policies) ==> !durOK(spec.Policies[k].LimitRefreshPeriod) || durOf(spec.Policies[k].LimitRefreshPeriod) > 0) && u != nil
+  invariant[3] name == (u.URLRule.PolicyRef != "" ? u.URLRule.PolicyRef : spec.DefaultPolicyRef) && u == spec.URLs[idx$2] && 0 <= idx$2 && idx$2 < len(spec.URLs)
+  invariant[3] forall j int :: 0 <= j && j < idx$2 ==> (exists k int :: 0 <= k && k < len(spec.Policies) && spec.Policies[k].Name == (spec.URLs[j].URLRule.PolicyRef != "" ? spec.URLs[j].URLRule.PolicyRef : spec.DefaultPolicyRef))
 
 func (url *URLRule) createRateLimiter()
   flag allocates
   requires url != nil && policyOK(url.policy)
   modifies url.rl, allof("ghost:github.com/megaease/easegress/pkg/util/ratelimiter.clock")
-  ensures url.rl != nil
+  ensures url.rl != nil && fresh(url.rl)
 
 // ---- C11 / C09: hot update of the filter ----
 // C09 / C11: a rule's policy is unchanged by a reload iff the policy it names - or, when it names none, the
@@ -49,17 +56,24 @@ func isSamePolicy(spec1 *Spec, spec2 *Spec, policyName string) (same bool)
   invariant[1] p1 == nil && (forall j int :: 0 <= j && j < idx$1 ==> spec1.Policies[j].Name != policyName)
   invariant[2] p2 == nil && (forall j int :: 0 <= j && j < idx$2 ==> spec2.Policies[j].Name != policyName) && firstNamed(spec1, policyName, p1)
 
+// C13: what validation (schema + Spec.Validate) establishes and Init relies on: every policy is usable and every
+// rule names a policy the spec defines
+pred policyDefined(s *Spec, u *URLRule) := exists k int :: 0 <= k && k < len(s.Policies) && s.Policies[k].Name == namedBy(s, u)
+pred specValid(s *Spec) := (forall k int :: 0 <= k && k < len(s.Policies) ==> policyOK(s.Policies[k])) && (forall j int :: 0 <= j && j < len(s.URLs) ==> policyDefined(s, s.URLs[j]))
+
 func (rl *RateLimiter) createRateLimiterForURL(u *URLRule)
-  trusted
   flag allocates
-  requires u != nil
-  modifies u.rl, u.policy, u.URLRule.id
+  requires rl != nil && urlsWF(rl.spec) && u != nil
+  requires a-validated-spec: (forall k int :: 0 <= k && k < len(rl.spec.Policies) ==> policyOK(rl.spec.Policies[k])) && policyDefined(rl.spec, u)
+  modifies u.rl, u.policy, u.URLRule.id, u.URLRule.URL.re, allof("ghost:github.com/megaease/easegress/pkg/util/ratelimiter.clock")
   ensures u.rl != nil && fresh(u.rl)
 
 func (rl *RateLimiter) bindPolicyToURL(u *URLRule)
-  trusted
-  requires u != nil
+  requires rl != nil && urlsWF(rl.spec) && u != nil
+  requires the-policy-the-rule-names-is-defined: policyDefined(rl.spec, u)
   modifies u.policy
+  ensures the-rule-is-bound-to-a-policy-of-the-spec: u.policy != nil && u.policy.Name == namedBy(rl.spec, u) && (exists k int :: 0 <= k && k < len(rl.spec.Policies) && rl.spec.Policies[k] == u.policy)
+  invariant[1] name == namedBy(rl.spec, u) && u.policy == old(u.policy) && (forall k int :: 0 <= k && k < idx$1 ==> rl.spec.Policies[k].Name != name)
 
 func (rl *RateLimiter) setStateListenerForURL(u *URLRule)
   trusted
@@ -71,7 +85,8 @@ pred disjointGenerations(a *Spec, b *Spec) := forall i, j int :: 0 <= i && i < l
 func (rl *RateLimiter) reload(previousGeneration *RateLimiter)
   flag allocates
   requires rl != nil && urlsWF(rl.spec) && (previousGeneration != nil ==> previousGeneration != rl && urlsWF(previousGeneration.spec) && disjointGenerations(rl.spec, previousGeneration.spec))
-  modifies gPol1, gPol2, allof("filters/ratelimiter.URLRule.rl"), allof("filters/ratelimiter.URLRule.policy"), allof("filters/ratelimiter.URLRule.URLRule.id"), allof("filters/ratelimiter.URLRule.URLRule.URL.re")
+  requires a-validated-spec: specValid(rl.spec)
+  modifies gPol1, gPol2, allof("ghost:github.com/megaease/easegress/pkg/util/ratelimiter.clock"), allof("filters/ratelimiter.URLRule.rl"), allof("filters/ratelimiter.URLRule.policy"), allof("filters/ratelimiter.URLRule.URLRule.id"), allof("filters/ratelimiter.URLRule.URLRule.URL.re")
   ensures previous-generation-keeps-its-limiters: previousGeneration != nil ==> (forall k int :: 0 <= k && k < len(previousGeneration.spec.URLs) ==> previousGeneration.spec.URLs[k].rl == old(previousGeneration.spec.URLs[k].rl))
   ensures every-rule-has-a-limiter: forall k int :: 0 <= k && k < len(rl.spec.URLs) ==> rl.spec.URLs[k].rl != nil
   ensures limiter-is-inherited-or-new: previousGeneration != nil ==> (forall k int :: 0 <= k && k < len(rl.spec.URLs) ==> fresh(rl.spec.URLs[k].rl) || (exists j int :: 0 <= j && j < len(previousGeneration.spec.URLs) && rl.spec.URLs[k].rl == old(previousGeneration.spec.URLs[j].rl) && urlrule.sameRule(ref(addr(rl.spec.URLs[k].URLRule)), ref(addr(previousGeneration.spec.URLs[j].URLRule))) && samePolicy(rl.spec, previousGeneration.spec, rl.spec.URLs[k].URLRule.PolicyRef)))
